@@ -37,7 +37,7 @@ use radicle::cob::cache::{self, NoCache, StoreWriter};
 use radicle::cob::issue::cache::Issues as IssuesQ;
 use radicle::cob::issue::{self, CloseReason, Issue, IssueCounts, IssueId};
 use radicle::cob::patch::cache::Patches as PatchesQ;
-use radicle::cob::patch::{self, ByRevision, Lifecycle, MergeTarget, Patch, PatchCounts, PatchId, ReviewId, RevisionId, Status, Verdict};
+use radicle::cob::patch::{self, ByRevision, Lifecycle, MergeTarget, Patch, PatchCounts, PatchId, RevisionId, Status, Verdict};
 use radicle::cob::{self, Embed, Label, ObjectId, TypedId, Uri};
 use radicle::crypto::test::signer::MockSigner;
 use radicle::crypto::PublicKey;
@@ -120,6 +120,25 @@ fn build_template() -> Template {
     let _ = tb.into_path();
     drop(repo);
     Template { root, repo_path, rid, base, head }
+}
+
+/// A fresh repository: refs and configuration are copied, the (immutable) objects of the template
+/// are borrowed through `objects/info/alternates`; new objects are written to the copy only.
+fn copy_repo(from: &Path, to: &Path) {
+    std::fs::create_dir_all(to).unwrap();
+    for e in std::fs::read_dir(from).unwrap() {
+        let e = e.unwrap();
+        let dst = to.join(e.file_name());
+        if e.file_name() == "objects" {
+            std::fs::create_dir_all(dst.join("info")).unwrap();
+            std::fs::create_dir_all(dst.join("pack")).unwrap();
+            std::fs::write(dst.join("info").join("alternates"), format!("{}\n", e.path().display())).unwrap();
+        } else if e.file_type().unwrap().is_dir() {
+            copy_dir(&e.path(), &dst);
+        } else {
+            std::fs::copy(e.path(), &dst).unwrap();
+        }
+    }
 }
 
 fn copy_dir(from: &Path, to: &Path) {
@@ -250,7 +269,8 @@ fn caps() -> Caps {
 enum Obs<T> {
     Ok(T),
     Err(String),
-    Panic(String),
+    /// (file of the panic site, full description)
+    Panic(String, String),
 }
 
 fn guard<T, E: Display>(f: impl FnOnce() -> Result<T, E>) -> Obs<T> {
@@ -261,7 +281,9 @@ fn guard<T, E: Display>(f: impl FnOnce() -> Result<T, E>) -> Obs<T> {
             if c.file.starts_with("chk-") || c.file.starts_with("mcx/") {
                 machinery(&format!("harness panic inside a query: {} ({}:{})", c.message, c.file, c.line));
             }
-            Obs::Panic(format!("{} ({}:{})", c.site(), c.file.rsplit("/crates/").next().unwrap_or(&c.file), c.line))
+            let site = c.site();
+            let file = site.split(':').next().unwrap_or("").to_string();
+            Obs::Panic(file, format!("{site} (line {})", c.line))
         }
     }
 }
@@ -344,29 +366,49 @@ struct Cmp<'a> {
     violations: Vec<Violation>,
     comparisons: u64,
     ctx: &'a str,
+    /// Set while comparing the queries of a type whose cache *content* (the rows, observed through
+    /// `list`) already differs from the objects in the repository: that difference is reported once,
+    /// under the `list` fingerprint; what the other queries answer then follows from it.
+    content_differs: bool,
+}
+
+/// Identifier kinds folded for fingerprints (the exact kind stays in the description).
+fn kind_class(kind: &str) -> &str {
+    match kind {
+        "revision-comment" | "review-comment" | "issue-comment" => "comment",
+        "redacted-revision-comment" | "redacted-review-comment" | "redacted-issue-comment" => "redacted-comment",
+        k => k,
+    }
 }
 
 impl Cmp<'_> {
-    fn record(&mut self, query: &str, kind: &str, cs: &str, ds: &str, agree: bool, id: Option<&git::Oid>, cached: String, direct: String) {
+    /// `fpq`: query name as used in the fingerprint; `query`: exact query (with status) for humans.
+    #[allow(clippy::too_many_arguments)]
+    fn record(&mut self, fpq: &str, query: &str, kind: &str, cs: &str, ds: &str, agree: bool, id: Option<&git::Oid>, cached: String, direct: String) -> bool {
         self.comparisons += 1;
-        *self.hist.entry(format!("{query}[{kind}] cached={cs} direct={ds}{}", if agree { "" } else { " MISMATCH" })).or_insert(0) += 1;
-        if !agree {
-            // Panic sites are part of the shape (different sites are different defects), digits are not.
-            let fp = format!("C09/{query}/{kind}/cached={}/direct={}", cs.split(" (").next().unwrap_or(cs), ds.split(" (").next().unwrap_or(ds));
+        let verdict = match (agree, self.content_differs) {
+            (true, _) => "",
+            (false, false) => " MISMATCH",
+            (false, true) => " MISMATCH(follows from differing cache content)",
+        };
+        *self.hist.entry(format!("{query}[{kind}] cached={cs} direct={ds}{verdict}")).or_insert(0) += 1;
+        if !agree && !self.content_differs {
+            let fp = format!("C09/{fpq}/{}/cached={cs}/direct={ds}", kind_class(kind));
             let what = format!(
-                "{query} with {kind} id{}: cache answers {cs}, direct evaluation answers {ds} (after {})",
-                id.map(|i| format!(" {i}")).unwrap_or_default(),
+                "{query}{}: the cache answers {cs}, direct evaluation answers {ds} (after {})",
+                id.map(|i| format!(" with the {kind} id {i}")).unwrap_or_default(),
                 self.ctx
             );
             self.violations.push(Violation::new(fp, what, json!({"query": query, "id": id.map(|i| i.to_string()), "id_kind": kind, "cached": clip(cached), "direct": clip(direct)})));
         }
+        agree
     }
 
     fn scalar<T: PartialEq + Debug>(&mut self, query: &str, kind: &str, id: Option<&git::Oid>, c: &Obs<T>, d: &Obs<T>, shape: impl Fn(&T) -> String) {
         let sh = |o: &Obs<T>| match o {
             Obs::Ok(v) => format!("Ok({})", shape(v)),
             Obs::Err(_) => "Err".to_string(),
-            Obs::Panic(site) => format!("Panic@{site}"),
+            Obs::Panic(file, _) => format!("Panic@{file}"),
         };
         let (mut cs, mut ds) = (sh(c), sh(d));
         let agree = match (c, d) {
@@ -378,13 +420,13 @@ impl Cmp<'_> {
                 a == b
             }
             (Obs::Err(_), Obs::Err(_)) => true,
-            (Obs::Panic(_), Obs::Panic(_)) => true,
+            (Obs::Panic(..), Obs::Panic(..)) => true,
             _ => false,
         };
-        self.record(query, kind, &cs, &ds, agree, id, format!("{c:?}"), format!("{d:?}"));
+        self.record(query, query, kind, &cs, &ds, agree, id, format!("{c:?}"), format!("{d:?}"));
     }
 
-    fn items<I: Ord + Copy + Debug + Display, T: PartialEq + Debug>(&mut self, query: &str, c: &Items<I, T>, d: &Items<I, T>) {
+    fn items<I: Ord + Copy + Debug + Display, T: PartialEq + Debug>(&mut self, fpq: &str, query: &str, c: &Items<I, T>, d: &Items<I, T>) -> bool {
         match (c, d) {
             (Obs::Ok(a), Obs::Ok(b)) => {
                 let index = |v: &Vec<Result<(I, T), String>>| -> (BTreeSet<I>, usize) {
@@ -428,18 +470,18 @@ impl Cmp<'_> {
                     _ => "2+",
                 };
                 let cs = if agree { format!("Ok(n={}{})", n(a.len()), if order_same { "" } else { ",other-order" }) } else { format!("Ok({})", rel.join("+")) };
-                let ds = format!("Ok(n={})", n(b.len()));
+                let ds = if agree { format!("Ok(n={})", n(b.len())) } else { "Ok".to_string() };
                 let ids = |v: &Vec<Result<(I, T), String>>| format!("{:?}", v.iter().map(|r| r.as_ref().map(|x| x.0.to_string()).map_err(|e| e.clone())).collect::<Vec<_>>());
-                self.record(query, "-", &cs, &ds, agree, None, ids(a), ids(b));
+                self.record(fpq, query, "-", &cs, &ds, agree, None, ids(a), ids(b))
             }
             _ => {
                 let sh = |o: &Items<I, T>| match o {
                     Obs::Ok(_) => "Ok".to_string(),
                     Obs::Err(_) => "Err".to_string(),
-                    Obs::Panic(s) => format!("Panic@{s}"),
+                    Obs::Panic(file, _) => format!("Panic@{file}"),
                 };
-                let agree = matches!((c, d), (Obs::Err(_), Obs::Err(_)) | (Obs::Panic(_), Obs::Panic(_)));
-                self.record(query, "-", &sh(c), &sh(d), agree, None, format!("{c:?}"), format!("{d:?}"));
+                let agree = matches!((c, d), (Obs::Err(_), Obs::Err(_)) | (Obs::Panic(..), Obs::Panic(..)));
+                self.record(fpq, query, "-", &sh(c), &sh(d), agree, None, format!("{c:?}"), format!("{d:?}"))
             }
         }
     }
@@ -489,7 +531,7 @@ impl Sys {
         let t = tpl();
         let dir = t.root.join(format!("s{}", DIR_SEQ.fetch_add(1, Ordering::Relaxed)));
         let path = dir.join(t.rid.canonical());
-        copy_dir(&t.repo_path, &path);
+        copy_repo(&t.repo_path, &path);
         let repo = Repository::open(&path, t.rid).unwrap_or_else(|e| machinery(&format!("cannot open copied repository: {e}")));
         let db = cache::Store::<cache::Write>::memory()
             .and_then(|s| s.with_migrations(cache::migrate::ignore))
@@ -726,19 +768,19 @@ impl Sys {
     fn compare(&self, after: &str) -> (Vec<Violation>, u64) {
         let ids: Vec<git::Oid> = self.ids.keys().copied().collect();
         let kinds: Vec<&'static str> = self.ids.values().copied().collect();
-        let mut cmp = Cmp { hist: BTreeMap::new(), violations: vec![], comparisons: 0, ctx: after };
+        let mut cmp = Cmp { hist: BTreeMap::new(), violations: vec![], comparisons: 0, ctx: after, content_differs: false };
 
         let pc = observe_patches(&self.cached_patches(), &ids);
         let pd = observe_patches(&self.direct_patches(), &ids);
         let opt = |o: &Option<Patch>| if o.is_some() { "Some".to_string() } else { "None".to_string() };
         let optr = |o: &Option<ByRevision>| if o.is_some() { "Some".to_string() } else { "None".to_string() };
+        cmp.content_differs = !cmp.items("patch.list", "patch.list", &pc.list, &pd.list);
         for (k, id) in ids.iter().enumerate() {
             cmp.scalar("patch.get", kinds[k], Some(id), &pc.get[k], &pd.get[k], opt);
             cmp.scalar("patch.find_by_revision", kinds[k], Some(id), &pc.find[k], &pd.find[k], optr);
         }
-        cmp.items("patch.list", &pc.list, &pd.list);
         for (k, s) in PATCH_STATUSES.iter().enumerate() {
-            cmp.items(&format!("patch.list_by_status({s})"), &pc.by_status[k], &pd.by_status[k]);
+            cmp.items("patch.list_by_status", &format!("patch.list_by_status({s})"), &pc.by_status[k], &pd.by_status[k]);
         }
         cmp.scalar("patch.counts", "-", None, &pc.counts, &pd.counts, |c| if c.total() == 0 { "zero".into() } else { "nonzero".into() });
         cmp.scalar("patch.is_empty", "-", None, &pc.empty, &pd.empty, |b| b.to_string());
@@ -746,12 +788,13 @@ impl Sys {
         let ic = observe_issues(&self.cached_issues(), &ids);
         let id_ = observe_issues(&self.direct_issues(), &ids);
         let opti = |o: &Option<Issue>| if o.is_some() { "Some".to_string() } else { "None".to_string() };
+        cmp.content_differs = !cmp.items("issue.list", "issue.list", &ic.list, &id_.list);
         for (k, id) in ids.iter().enumerate() {
             cmp.scalar("issue.get", kinds[k], Some(id), &ic.get[k], &id_.get[k], opti);
         }
-        cmp.items("issue.list", &ic.list, &id_.list);
         for (k, s) in issue_statuses().iter().enumerate() {
-            cmp.items(&format!("issue.list_by_status({})", status_name(s)), &ic.by_status[k], &id_.by_status[k]);
+            let fpq = if *s == issue::State::Open { "issue.list_by_status(open)" } else { "issue.list_by_status(closed:reason)" };
+            cmp.items(fpq, &format!("issue.list_by_status({})", status_name(s)), &ic.by_status[k], &id_.by_status[k]);
         }
         cmp.scalar("issue.counts", "-", None, &ic.counts, &id_.counts, |c| if c.total() == 0 { "zero".into() } else { "nonzero".into() });
         cmp.scalar("issue.is_empty", "-", None, &ic.empty, &id_.empty, |b| b.to_string());
@@ -794,6 +837,10 @@ where
 
 type Notes = Vec<(git::Oid, &'static str)>;
 
+fn rev_oid(r: RevisionId) -> git::Oid {
+    git::Oid::from_str(&r.to_string()).expect("a revision id prints as an oid")
+}
+
 /// The newest live (not redacted) revision of a patch, by any author.
 fn newest(p: &Patch) -> (RevisionId, &patch::Revision) {
     p.revisions().next_back().expect("the root revision cannot be redacted")
@@ -810,7 +857,7 @@ where
     Ok(match ev {
         Ev::Revision(..) => {
             let r = pm.update("another revision", t.base, t.head, me).map_err(e)?;
-            vec![(*r, "revision")]
+            vec![(rev_oid(r), "revision")]
         }
         Ev::Review(..) => {
             let r = pm.review(rev_id, Some(Verdict::Accept), Some("lgtm".to_string()), vec![], me).map_err(e)?;
@@ -829,7 +876,7 @@ where
             let (root, _) = cur.root();
             let (target, _) = cur.revisions().filter(|(id, r)| *id != root && r.author().public_key() == pk).next_back().ok_or("no-target")?;
             pm.redact(target, me).map_err(e)?;
-            vec![(*target, "redacted-revision")]
+            vec![(rev_oid(target), "redacted-revision")]
         }
         Ev::RedactReview(_) => {
             let review = rev.review_by(pk).ok_or("no-target")?.id();
@@ -890,7 +937,7 @@ where
             vec![]
         }
         Ev::IssueRedactComment(_) => {
-            let (cid, _) = cur.comments().filter(|(id, c)| **id != root && c.author() == *pk).next_back().ok_or("no-target")?;
+            let (cid, _) = cur.comments().filter(|(id, c)| **id != root && c.author() == *pk).last().ok_or("no-target")?;
             let cid = *cid;
             im.redact_comment(cid, me).map_err(e)?;
             vec![(cid, "redacted-issue-comment")]
@@ -917,7 +964,7 @@ impl System for Sys {
             if let Some((_, p)) = self.patch_now(slot) {
                 let (root, _) = p.root();
                 let (_, rev) = newest(&p);
-                let n_revs = p.timeline().filter(|e| p.revision(&RevisionId::from(**e)).is_some() || self.ids.get(*e) == Some(&"redacted-revision")).count();
+                let n_revs = p.version() + 1; // redacted ones included
                 let merged = p.is_merged();
                 for (via, pk) in [(Via::Local, &a), (Via::Fetched, &b)] {
                     if n_revs < caps.revisions {
